@@ -232,6 +232,7 @@ func classify(c *Case) (bool, []string) {
 }
 
 func run(t interface{ Fatalf(string, ...any) }, c *Case) {
+	defer fix.Track(prop, "reexec", c, c.Summary())()
 	nt, cl := classify(c)
 	evid.Case(nt, c.Summary(), cl...)
 	if err := oracle(c); err != nil {
@@ -364,6 +365,7 @@ func wrapOracle(c *WrapCase) error {
 }
 
 func runWrap(t interface{ Fatalf(string, ...any) }, c *WrapCase) {
+	defer fix.Track(prop, "wrap", c, c.Summary())()
 	evid.Case(true, c.Summary(), "index-number-wrap")
 	if err := wrapOracle(c); err != nil {
 		if strings.HasPrefix(err.Error(), "INFRA:") {
